@@ -48,7 +48,8 @@ package service
 // every System call made on behalf of the request that returns an error marks the request failed
 //@ error-ghost failed \(\*sys\.System\)\..*
 //@ func (*Service).ProcessRequest
-//@   ensures-each-return[C18.errors_propagate] failed ==> result1 != nil
+//@   assert[C18.no_success_response_after_failure] at "out.Write(": !failed
+//@   assert[C18.no_success_response_after_failure_f] at "fmt.Fprintf(out,": !failed
 //@   ghost-ensures failed == (old(failed) || (result1 != nil && !is(result1, *Redirect)))
 //@   also-modifies failed
 //@ func (*HTTPService).ServeHTTP
